@@ -40,8 +40,12 @@ class T(object):
 class Sched(object):
     current = None     # the scheduler of the execution in progress (one per process)
 
-    def __init__(self, prefix=(), horizon=120.0, max_points=20000):
+    def __init__(self, prefix=(), horizon=120.0, max_points=20000, low=(), fine=False):
         self.prefix = list(prefix)
+        self.fine = fine
+        self.starve_budget = 0.5    # virtual seconds a starved thread may be held back while others only wait on short polls
+        self.starve_left = self.starve_budget
+        self.low = tuple(low)       # names of threads that run only when no other thread can (starvation schedules)
         self.threads = []
         self.now = 1000.0
         self.ctrl = threading.Semaphore(0)
@@ -146,9 +150,24 @@ class Sched(object):
                         self.overrun = [(t.name, t.label) for t in self.threads if t.state != 'done']
                         break
                     continue
+                if self.low and all(t.name in self.low for t in en):
+                    # only starved threads could run.  The other threads may merely be sitting in a short poll (the providers'
+                    # 50 ms select): a slow thread is one that is still not scheduled when those polls time out.  Let the
+                    # polls expire first, for at most starve_budget virtual seconds per episode (shorter than every
+                    # protocol-level timeout, so that starvation never turns into a spurious time-out).
+                    polls = [t.deadline for t in self.threads if t.state == 'blocked' and t.deadline is not None and
+                             t.name not in self.low and t.deadline - self.now <= 0.0501]
+                    if polls and self.starve_left > 0:
+                        nxt = max(self.now, min(polls))
+                        self.starve_left -= max(nxt - self.now, 1e-3)
+                        self.now = nxt
+                        continue
                 # canonical order: the running thread first if still enabled, then ascending ids
                 run_en = self.running is not None and self.running in en
                 order = ([self.running] if run_en else []) + [t for t in en if t is not self.running]
+                if self.low:
+                    # starved threads go last (stable): they are picked by default only when nothing else is enabled
+                    order = [t for t in order if t.name not in self.low] + [t for t in order if t.name in self.low]
                 i = len(self.points)
                 if i < len(self.prefix):
                     c = self.prefix[i]
@@ -165,6 +184,8 @@ class Sched(object):
                     t.timed_out = not t.cond()
                 t.state = 'running'
                 self.running = t
+                if t.name in self.low:
+                    self.starve_left = self.starve_budget
                 t.baton.release()
                 if not self.ctrl.acquire(timeout=REAL_TIMEOUT):
                     raise HarnessError('thread %s did not reach a scheduling point within %ds (real time); last label %s' % (
@@ -206,6 +227,10 @@ class CoopQueue(object):
     def put(self, item, block=True, timeout=None):
         cur().point('q.put')
         self.items.append(item)
+        if cur().fine:
+            # what the putting thread does next may race with what the getting thread does with the item (objects handed
+            # over by reference): with this second point the consumer can run before the producer's next statement
+            cur().point('q.put.done')
 
     def get(self, block=True, timeout=None):
         if not block:
@@ -520,10 +545,10 @@ class Outcome(object):
         self.results = results
 
 
-def execute(scenario, prefix=()):
+def execute(scenario, prefix=(), low=(), fine=False):
     """scenario(sched, net) -> dict of named results, filled in by the scenario's threads.  Returns Outcome."""
     apply_patches()
-    sched = Sched(prefix)
+    sched = Sched(prefix, low=low, fine=fine)
     net = Net(sched)
     ADAPTER.net = net
     Sched.current = sched
@@ -533,7 +558,7 @@ def execute(scenario, prefix=()):
     return Outcome(sched, net, results)
 
 
-def explore(scenario, bound, on_outcome, max_exec=200000, free_branch=True, root=None, only_root_children=False, count_all=False):
+def explore(scenario, bound, on_outcome, max_exec=200000, free_branch=True, root=None, only_root_children=False, count_all=False, low=(), fine=False):
     """All schedules with at most `bound` preemptions (switching away from a thread that could continue).
     on_outcome(outcome) is called for every complete execution.  Returns statistics."""
     stats = {'executions': 0, 'max_points': 0, 'branch_points': 0, 'capped': False, 'configs': set(), 'decisions': 0}
@@ -544,7 +569,7 @@ def explore(scenario, bound, on_outcome, max_exec=200000, free_branch=True, root
         if stats['executions'] >= max_exec:
             stats['capped'] = True
             break
-        out = execute(scenario, prefix)
+        out = execute(scenario, prefix, low, fine)
         stats['executions'] += 1
         stats['decisions'] += len(out.points)
         stats['max_points'] = max(stats['max_points'], len(out.points))
